@@ -78,3 +78,30 @@ Theorem c16_index_validator_decides : forall orig rb,
   index_rt_tags orig rb = [] <-> IndexRoundTrip orig rb.
 Proof. exact index_validator_decides. Qed.
 Print Assumptions c16_index_validator_decides.
+
+(* ---- installed database: reading then re-writing ---------------------------
+   The full statement ("reading a written lib/apk/db/installed and writing it
+   again reproduces it") is false for three recorded reasons: the i: line is
+   written in Go's slice syntax (C16-F1), Z: lines are never read (C16-F2), and —
+   witness below, finding C16-F7 — a package whose file list names one directory
+   twice (legal in a tar stream) gets that directory once per header with ALL its
+   children under each, so the record multiplies on every write. *)
+Definition witness_dup_files : list hdr :=
+  [mkHdr "s/" true 493 0 0 ""; mkHdr "s/d/" true 493 0 0 ""; mkHdr "s/d/x" false 420 0 0 ""; mkHdr "s/d/" true 493 0 0 ""]%string.
+Theorem c16_installed_fixpoint_dup_dir_refuted :
+  let enc := fun _ : list N => ""%string in let dec := fun _ : string => Some (@nil N) in
+  let p := set_version "1" (set_name "a" empty_pkg) in
+  exists t p' fs' t',
+    write_installed enc dec p witness_dup_files = Ok t /\
+    parse_installed dec t = Ok [(p', fs')] /\
+    write_installed enc dec p' fs' = Ok t' /\
+    List.length fs' = 5 /\
+    In "viol:installed-read-write-not-fixpoint"%string (installed_fixpoint_tags t (Ok t')) /\
+    dup_dir witness_dup_files = true.
+Proof.
+  cbn zeta. eexists _, _, _, _.
+  split; [vm_compute; reflexivity|]. split; [vm_compute; reflexivity|].
+  split; [vm_compute; reflexivity|]. split; [reflexivity|].
+  split; [vm_compute; tauto | reflexivity].
+Qed.
+Print Assumptions c16_installed_fixpoint_dup_dir_refuted.
